@@ -1,4 +1,5 @@
 import EpyVerif.Model.Sim
+import EpyVerif.Model.Stats
 /-! Line-protocol driver for the simulation model at `K = Float` (bit-exact with CPython on this image). -/
 open Queue Dyn Comp Sim Bbt
 
@@ -38,6 +39,7 @@ structure Rec where
   ninst : Nat := 1
   lnode : Array Bool := #[]     -- does locus i hold nodes (printing)
   named : Array Bool := #[]     -- is instance i a named instance (then markHit records hittingProcess)
+  wantStats : Bool := false
 
 def optNat (s : String) : Option Nat := if s == "-" then none else some s.toNat!
 
@@ -162,6 +164,7 @@ def main : IO Unit := do
     | ["S_POSTC", i, c, t, h] => r := { r with setup := r.setup.push (.postc i.toNat! c.toNat! (parseF t) h.toNat!) }
     | ["S_INFV"] => r := { r with setup := r.setup.push .infv }
     | ["S_POST", t, a, b, h] => r := { r with setup := r.setup.push (.post (parseF t) (a.toInt!, b.toInt!) h.toNat!) }
+    | ["STATS"] => r := { r with wantStats := true }
     | ["RF", x] => r := { r with rng := r.rng.push (.f (parseF x)) }
     | ["RI", hi, x] => r := { r with rng := r.rng.push (.i hi.toNat! x.toNat!) }
     | ["RUN", dyn] =>
@@ -177,6 +180,10 @@ def main : IO Unit := do
         for l in L.s.u.out do IO.println l
         let mon := if L.s.u.mon.times.isEmpty then "" else
           " mon=" ++ ",".intercalate (L.s.u.mon.times.map fbits) ++ "/" ++ ";".intercalate (L.s.u.mon.vals.map fun row => ",".intercalate (row.map toString))
+        let mon := if r.wantStats then
+            let st := Stats.stats L.s.u.w.net
+            mon ++ s!" stats=N:{st.N},M:{st.M},kmean:{fbits (Float.ofNat st.ktotal / Float.ofNat st.N)},kmax:{st.kmax},ncomp:{st.ncomp},lcc:{st.lcc},slcc:{st.slcc}"
+          else mon
         match L.s.u.err with
         | some e => IO.println s!"ERR {e}"
         | none =>
